@@ -246,7 +246,12 @@ def _judge(S, lim, msgs, end, delivered, error, upgraded, tail, level, rec, ctx)
             if v:
                 return v
         if error is not None:
-            if pm is not None and pm.grey:
+            unterminated = len(S) - (S.rfind(b"\n", end[1]) + 1 if S.rfind(b"\n", end[1]) >= 0 else end[1])
+            if unterminated >= min(lim[0], lim[1]) and (pm is None or end[2] in ("chunk-size", "trailer")):
+                # the stream ends inside a line that is already as long as a line limit: LineTooLong before the
+                # terminator arrives is the limit doing its job (found by vp check seed 1 with all-eol-cr)
+                rec.count("grey:unterminated-line-at-limit")
+            elif pm is not None and pm.grey:
                 rec.count("grey-rejected:" + pm.grey[0])
             else:
                 v.append((f"{level}:rejected-viable-prefix:{error[0]}", f"stream ends inside message {k} ({end[2]} @{end[1]}); aiohttp already raised {error}"))
@@ -338,8 +343,20 @@ def judge_server(S: bytes, lim, rec, ctx):
     return v, msgs, end, sr
 
 
+def _deferred_head_reject(v, end):
+    """The reference rejects a complete line inside a head whose blank line never arrives; aiohttp parses a
+    head only once it is complete, so it is still waiting (no interpretation given).  The property is about
+    what it does with the stream, so the head is completed and the continuation must then be rejected."""
+    return bool(v) and end[0] == "reject" and end[4] is None and all(m.split(":")[1] == "not-rejected" for m, _ in v)
+
+
 def check_stream(S: bytes, lim, rec, ctx, do_server: bool):
     v, msgs, end, run = judge_parser(S, lim, rec, ctx)
+    if _deferred_head_reject(v, end):
+        v2, msgs2, end2, run2 = judge_parser(S + b"\r\n\r\n", lim, rec, ctx)
+        if end2[:3] == end[:3] and len(msgs2) == len(msgs):
+            rec.count("info:head-reject-deferred-until-head-complete")
+            S, v, msgs, end, run = S + b"\r\n\r\n", v2, msgs2, end2, run2
     nontrivial = bool(msgs) or bool(run.msgs) or (end[0] == "reject" and not end[1].startswith(("request-line", "method", "version", "target", "bare-lf-request")))
     rec.case((S, lim), nontrivial)
     rec.count("streams")
@@ -351,7 +368,12 @@ def check_stream(S: bytes, lim, rec, ctx, do_server: bool):
         rec.violation(mech, f"[{ctx}] {summ}", {"stream": S, "limits": lim, "level": "parser", "ctx": ctx})
     if do_server:
         rec.count("server-runs")
-        v2, _, _, sr = judge_server(S, lim, rec, ctx)
+        v2, _, end_s, sr = judge_server(S, lim, rec, ctx)
+        if _deferred_head_reject(v2, end_s):
+            v3, _, end3, sr3 = judge_server(S + b"\r\n\r\n", lim, rec, ctx)
+            if end3[:3] == end_s[:3]:
+                rec.count("info:server-head-reject-deferred-until-head-complete")
+                S, v2, sr = S + b"\r\n\r\n", v3, sr3
         rec.count("server-handled", len(sr.handled))
         for mech, summ in v2:
             rec.violation(mech, f"[{ctx}] {summ}", {"stream": S, "limits": lim, "level": "server", "ctx": ctx})
